@@ -16,6 +16,7 @@ import (
 )
 
 var strPieces = []string{"a", "\"", "'", "\\", "\n", "\r", " ", " ", "\x00", "\x1f", "\x7f", "é", "日本", "🙂", "\U0010FFFF", "\U000E0001", "￾", "​",
+	"%", "%%", "%s", "%d", "%v", "%.1s", "%20", "100%", "%!", "%[1]s", "%q",
 	"})", ")(", "*/", "/*", "</script>", "<!--", "')", "\")", "';globalThis.__pwned=1;'", "\";globalThis.__pwned=1;\"", "\\u0041", "\\", "\\'", "${x}", "`", "\t", "\b", "\f", "&", "<", ">", "=", "\u0085"}
 
 type gen struct{ r *lib.Rand }
